@@ -5,6 +5,8 @@ L1  tla/rsp/Pipeline.tla: code-shaped model of the window processor (evict previ
     operator) and of the MultiThread worker fed through a FIFO channel; TLC checks it against the
     requirement of tla/rsp/Rsp.tla for every sequence of window contents over a small universe and
     every interleaving of feeder and worker.
+L2  every sequence of non-empty window contents of a small model instance x stream operator, with the emissions the model
+    predicts, replayed on the real engine ([RANGE 1 STEP 1], content k = the items with timestamp k).
 L3  real engines built through RSPBuilder, fed seeded streams in SingleThread mode and in
     MultiThread mode under perturbed schedules (hooks: yield points + events under the store lock);
     TLC validates every firing (answers = query over exactly that content + derived facts; emission =
@@ -82,6 +84,34 @@ def gen_case(rng, i):
             "spec": {"op": op, "q": q, "rules": rules, "hasref": False, "ref": []}, "width": width, "slide": slide}
 
 
+NAMES = {"a": NS + "i0", "b": NS + "i1", "o": NS + "o", "p": P, "q": Q}
+MODEL_RULES = {"MC_emit_quick.cfg": RULESETS[1],
+               "MC_emit_thorough.cfg": [{"prem": [[V("a"), C(P), V("b")]], "concl": [[V("a"), C(Q), V("b")]]},
+                                        {"prem": [[V("a"), C(Q), V("b")]], "concl": [[V("b"), C(Q), V("a")]]}]}
+
+
+def l2_cases(behaviours, rules, first_id):
+    """A TLC behaviour of Pipeline.tla = a sequence of window contents + the predicted emissions.  On the real engine the k-th
+    content is the set of items with timestamp k of a [RANGE 1 STEP 1] window (the last one is reported by stop()/flush());
+    behaviours with an empty content are left out: a window without items is never opened, the engine has no such firing."""
+    cases, seen = [], set()
+    q = [[V("x"), C(Q), V("y")]]
+    for b in behaviours:
+        key = json.dumps([b["op"], b["fed"]])
+        if key in seen or any(len(k) == 0 for k in b["fed"]):
+            continue
+        seen.add(key)
+        w = f":m{first_id + len(cases)}"
+        pushes = [{"stream": ":s1", "s": NAMES[t[0]], "p": NAMES[t[1]], "o": NAMES[t[2]], "ts": k + 1} for k, content in enumerate(b["fed"]) for t in content]
+        model = [sorted(json.dumps({v: NAMES[x] for v, x in r["row"].items()}, sort_keys=True) for r in em for _ in range(r["n"])) for em in b["emitted"]]
+        text = (f"REGISTER {b['op']} <http://out/stream> AS SELECT * FROM NAMED WINDOW {w} ON :s1 [RANGE 1 STEP 1] "
+                "WHERE { WINDOW " + w + " { ?x <" + Q + "> ?y . } }")
+        cases.append({"query": text, "rules": pr_rules(rules), "mode": "single" if len(cases) % 3 else "multi", "policy": "wait", "seed": len(cases) + 1, "static": "",
+                      "pushes": pushes, "windows": [w], "spec": {"op": b["op"], "q": q, "rules": rules, "hasref": False, "ref": []}, "width": 1, "slide": 1,
+                      "model": model})
+    return cases
+
+
 def per_firing_emission(events):
     out, cur = [], None
     for e in events:
@@ -134,6 +164,26 @@ def run(ctx):
     if neg["violated"] is None:
         raise vlib.ToolError("non-vacuity check failed: the historic materialise order no longer violates the requirement in the model")
 
+    # L2: every content sequence of the model instance, with the model's predicted emissions, on the real engine
+    ecfg = "MC_emit_thorough.cfg" if thorough else "MC_emit_quick.cfg"
+    beh, _st = vlib.tlc_emit(FAMILY, "MCPipeline.tla", ecfg, workers=4, tag="c10-emit")
+    l2 = l2_cases(beh, MODEL_RULES[ecfg], 0)
+    lp, lt = os.path.join(wd, "l2-cases.ndjson"), os.path.join(wd, "l2.ndjson")
+    vlib.write_ndjson(lp, l2)
+    vlib.kverif_restartable("rsp", lp, lt)
+    runs0, failed0, res0 = validate(lt, verdict, "l2")
+    drift0 = 0
+    for rid, ev in runs0.items():
+        if rid in failed0:
+            continue
+        got = [sorted(json.dumps(r, sort_keys=True) for r in em) for em in per_firing_emission(ev)]
+        if got != ev[0]["case"]["model"]:
+            drift0 += 1
+    log(f"L2 replayed {len(l2)} content sequences of the model (x stream operators; every third multi-threaded): {len(failed0)} rejected, "
+        f"{drift0} differ from the model's predicted emissions only")
+    if drift0 and not failed0:
+        print(f"MODEL-DRIFT: property=C10 {drift0} replayed behaviour(s) satisfy the requirement but differ from Pipeline.tla's prediction")
+
     rng = random.Random(ctx.seed * 2654435761 % (2 ** 31))
     nstreams, nsched = (300, 12) if thorough else (45, 4)
     singles = [gen_case(rng, i) for i in range(nstreams)]
@@ -154,23 +204,24 @@ def run(ctx):
     vlib.kverif_restartable("rsp", mp, mt)
     runs2, failed2, res2 = validate(mt, verdict, "multi")
     log(f"L3 {len(runs1)} single-threaded runs ({len(failed1)} rejected), {len(runs2)} multi-threaded runs under perturbed schedules ({len(failed2)} rejected)")
-    if mc["violated"] and not (failed1 or failed2):
+    if mc["violated"] and not (failed0 or failed1 or failed2):
         raise vlib.ToolError(f"L1 invariant {mc['violated']} violated in the model but not reproduced on the code: model out of date")
     rc = verdict.finish()
-    firings = sum(1 for runs in (runs1, runs2) for ev in runs.values() for e in ev if e["ev"] == "fire")
+    firings = sum(1 for runs in (runs0, runs1, runs2) for ev in runs.values() for e in ev if e["ev"] == "fire")
     distinct = set()
-    for runs in (runs1, runs2):
+    for runs in (runs0, runs1, runs2):
         for ev in runs.values():
             if any(e["ev"] == "emit" for e in ev):
                 c = ev[0]["case"]
                 distinct.add(vlib.case_hash([c["query"], c["rules"], c["pushes"], c["mode"], c["seed"]]))
     smp = runs1[sorted(runs1)[0]]
-    cov = {"states": mc["states"], "transitions": mc["generated"], "traces_validated_against_impl": len(runs1) + len(runs2),
+    cov = {"states": mc["states"], "transitions": mc["generated"], "traces_validated_against_impl": len(runs0) + len(runs1) + len(runs2),
+           "l2_model_behaviours_replayed": len(l2), "l2_model_drift": drift0,
            "samples": [{"query": smp[0]["case"]["query"], "rules": smp[0]["case"]["rules"], "first_events": [{k: v for k, v in e.items() if k != "case"} for e in smp[1:9]]}],
-           "evaluations": len(runs1) + len(runs2), "distinct_nontrivial": len(distinct),
+           "evaluations": len(runs0) + len(runs1) + len(runs2), "distinct_nontrivial": len(distinct),
            "rule": "seeded streams x 5 rule sets x {RSTREAM, ISTREAM, DSTREAM} x window parameters; each stream once single-threaded and under "
                    f"{nsched} perturbed multi-threaded schedules; distinct by (query, rules, stream, mode, schedule seed); non-trivial = at least one row emitted",
-           "firings_validated": firings, "trace_states": res1["states"] + res2["states"]}
+           "firings_validated": firings, "trace_states": res0["states"] + res1["states"] + res2["states"]}
     vlib.write_evidence("C10", ctx.tier, ctx.seed, "model_checking", cov,
                         ["window contents are taken from the fire event recorded by the hook under the store lock (their correctness is C09)",
                          "window queries are basic graph patterns; rules are positive N3 rules",
